@@ -14,7 +14,7 @@
    algorithm equal to CRC-32/MPEG-2, whence "the CRC of the whole section is zero". *)
 From Gots Require Import Base.Prelude Model.Pts Model.Scte Model.ScteEnc Spec.Scte35Spec
   Proofs.ScteExpected Proofs.ScteLogical Proofs.ScteDecode Proofs.ScteEncode Proofs.ScteRoundtrip Proofs.ScteSetters
-  Proofs.ScteCanonical Proofs.ScteClean Proofs.ScteWitness Proofs.ScteReflected Proofs.ScteNormalB Proofs.ScteEncBytes Proofs.ScteBuild Proofs.ScteReorder.
+  Proofs.ScteCanonical Proofs.ScteClean Proofs.ScteWitness Proofs.ScteReflected Proofs.ScteNormalB Proofs.ScteEncBytes Proofs.ScteBuild Proofs.ScteReorder Proofs.ScteClosure.
 Import Scte ScteEnc Scte35Spec.
 Local Open Scope N_scope.
 
@@ -118,7 +118,7 @@ Print Assumptions C09_data_stable.
 Theorem C09_set_tier : forall s0 ops v, s_tier (run_script s0 (ops ++ [SSetTier v])) = v mod 4096.
 Proof. exact set_tier. Qed.
 Print Assumptions C09_set_tier.
-Theorem C09_set_adjust_pts : forall s0 ops v, s_pts (run_script s0 (ops ++ [SSetAdjustPTS v])) = v.
+Theorem C09_set_adjust_pts : forall s0 ops v, s_pts (run_script s0 (ops ++ [SSetAdjustPTS v])) = v mod 8589934592.
 Proof. exact set_adjust_pts. Qed.
 Print Assumptions C09_set_adjust_pts.
 Theorem C09_set_pts : forall s0 ops v,
@@ -164,7 +164,7 @@ Theorem C09_insert_setters : forall i,
   (forall b, i_has_pts (apply_ins_op (KSetHasPTS b) i) = b) /\
   (forall v, i_pts (apply_ins_op (KSetPTS v) i) = v mod 8589934592) /\
   (forall b, i_has_duration (apply_ins_op (ISetHasDuration b) i) = b) /\
-  (forall v, i_duration (apply_ins_op (ISetDuration v) i) = v) /\
+  (forall v, i_duration (apply_ins_op (ISetDuration v) i) = v mod 8589934592) /\
   (forall b, i_auto_return (apply_ins_op (ISetIsAutoReturn b) i) = b) /\
   (forall v, i_unique_program_id (apply_ins_op (ISetUniqueProgramId v) i) = v) /\
   (forall v, i_avail_num (apply_ins_op (ISetAvailNum v) i) = v) /\
@@ -189,9 +189,9 @@ Theorem C09_desc_setters : forall d,
   (forall b, d_web (apply_desc_op (DSetIsWebDeliveryAllowed b) d) = b) /\
   (forall b, d_archive (apply_desc_op (DSetIsArchiveAllowed b) d) = b) /\
   (forall b, d_noblackout (apply_desc_op (DSetHasNoRegionalBlackout b) d) = b) /\
-  (forall v, d_device (apply_desc_op (DSetDeviceRestrictions v) d) = v) /\
+  (forall v, d_device (apply_desc_op (DSetDeviceRestrictions v) d) = v mod 4) /\
   (forall b, d_has_sub (apply_desc_op (DSetHasSubSegments b) d) = b) /\
-  (forall l, d_components (apply_desc_op (DSetComponents l) d) = map (fun e => mkco (fst e) (snd e)) l).
+  (forall l, d_components (apply_desc_op (DSetComponents l) d) = map (fun e => mkco (fst e) (snd e mod 8589934592)) l).
 Proof. exact desc_setters. Qed.
 Print Assumptions C09_desc_setters.
 Theorem C09_desc_upid_laws : forall d,
@@ -223,9 +223,91 @@ Print Assumptions C09_set_through_descriptor.
 (* a flag can be cleared after it was set (and the other way round) without disturbing the value kept beside it *)
 Theorem C09_insert_flag_clear : forall i b v,
   i_has_duration (apply_ins_op (ISetHasDuration b) (apply_ins_op (ISetDuration v) (apply_ins_op (ISetHasDuration (negb b)) i))) = b /\
-  i_duration (apply_ins_op (ISetHasDuration b) (apply_ins_op (ISetDuration v) i)) = v.
+  i_duration (apply_ins_op (ISetHasDuration b) (apply_ins_op (ISetDuration v) i)) = v mod 8589934592.
 Proof. exact ins_flag_clear. Qed.
 Print Assumptions C09_insert_flag_clear.
+
+(* the value setters repaired in 0b05886 (they used to store the raw argument): getter = truncated value = what the next
+   encoding carries, for ANY argument value *)
+Theorem C09_set_duration_encoded : forall i v,
+  let i' := apply_ins_op (ISetDuration v) i in
+  i_duration i' = v mod 8589934592 /\
+  (i_cancel i = false -> i_has_duration i = true ->
+   exists b, logical_cmd (CInsert i') = Insert (i_event_id i) (Some b) /\ ib_break b = Some (i_auto_return i, v mod 8589934592)).
+Proof. exact set_duration_encoded. Qed.
+Print Assumptions C09_set_duration_encoded.
+Theorem C09_set_device_encoded : forall d v,
+  let d' := apply_desc_op (DSetDeviceRestrictions v) d in
+  d_device d' = v mod 4 /\
+  (d_cancel d = false -> d_dnr d = false ->
+   exists b, logical_seg d' = Seg (d_event_id d) (Some b) /\ sb_restr b = Some (d_web d, d_noblackout d, d_archive d, v mod 4)).
+Proof. exact set_device_encoded. Qed.
+Print Assumptions C09_set_device_encoded.
+Theorem C09_set_offset_encoded : forall d j v c0, (j < length (d_components d))%nat ->
+  let d' := apply_desc_op (DComp j (CoSetOffset v)) d in
+  co_off (nth j (d_components d') c0) = v mod 8589934592 /\
+  (d_cancel d = false -> d_program_seg d = false ->
+   exists b cs, logical_seg d' = Seg (d_event_id d) (Some b) /\ sb_comps b = Some cs /\
+                nth j cs (0, 0) = (co_tag (nth j (d_components d) c0), v mod 8589934592)).
+Proof. exact set_offset_encoded. Qed.
+Print Assumptions C09_set_offset_encoded.
+
+(* setters reached through Components()[j] of a splice_insert (decoded objects only: the API has no SetComponents for it),
+   Components()[j] of a segmentation descriptor and MID()[j] (the Go getters return pointers into the object) *)
+Theorem C09_component_setters : forall c,
+  (forall v, c_tag (apply_comp_op (CSetTag v) c) = v) /\
+  (forall b, c_has_pts (apply_comp_op (CSetHasPTS b) c) = b) /\
+  (forall v, c_pts (apply_comp_op (CSetPTS v) c) = v mod 8589934592).
+Proof. exact comp_setters. Qed.
+Print Assumptions C09_component_setters.
+Theorem C09_insert_component_law : forall i j o c0, (j < length (i_components i))%nat ->
+  let i' := apply_ins_op (IComp j o) i in
+  nth j (i_components i') c0 = apply_comp_op o (nth j (i_components i) c0) /\
+  (forall k, k <> j -> nth k (i_components i') c0 = nth k (i_components i) c0) /\
+  length (i_components i') = length (i_components i) /\
+  i_event_id i' = i_event_id i /\ i_pts i' = i_pts i /\ i_duration i' = i_duration i.
+Proof. exact insert_component_law. Qed.
+Print Assumptions C09_insert_component_law.
+Theorem C09_offset_setters : forall c,
+  (forall v, co_tag (apply_co_op (CoSetTag v) c) = v /\ co_off (apply_co_op (CoSetTag v) c) = co_off c) /\
+  (forall v, co_off (apply_co_op (CoSetOffset v) c) = v mod 8589934592 /\ co_tag (apply_co_op (CoSetOffset v) c) = co_tag c).
+Proof. exact co_setters. Qed.
+Print Assumptions C09_offset_setters.
+Theorem C09_desc_component_law : forall d j o c0, (j < length (d_components d))%nat ->
+  let d' := apply_desc_op (DComp j o) d in
+  nth j (d_components d') c0 = apply_co_op o (nth j (d_components d) c0) /\
+  (forall k, k <> j -> nth k (d_components d') c0 = nth k (d_components d) c0) /\
+  length (d_components d') = length (d_components d) /\ d_event_id d' = d_event_id d /\ d_mid d' = d_mid d.
+Proof. exact desc_component_law. Qed.
+Print Assumptions C09_desc_component_law.
+Theorem C09_mid_settype : forall d j v, d_upid_type d = SegUPIDMID -> (j < length (d_mid d))%nat ->
+  let d' := apply_desc_op (DMidSetUPIDType j v) d in
+  let u0 := mkupid 0 0 [] in
+  u_type (nth j (get_mid d') u0) = v /\ u_upid (nth j (get_mid d') u0) = u_upid (nth j (d_mid d) u0) /\
+  u_len (nth j (d_mid d') u0) = u_len (nth j (d_mid d) u0) /\ length (d_mid d') = length (d_mid d).
+Proof. exact mid_settype_law. Qed.
+Print Assumptions C09_mid_settype.
+
+(* ALL SEQUENCES OF SETTER CALLS.  `typed_sig_op` (Proofs/ScteClosure.v): every argument within its Go type (uint8/16/32,
+   byte strings; PTS, duration, offset, tier, device-restriction arguments of ANY size, the setters truncate them; the one
+   exception is SCTE35.SetPTS, which still stores s.pts un-truncated and therefore needs v < 2^33).  `wid_sig` = the
+   value-width part of `normal`; `fits` = the rest of it: counts and lengths representable (8-bit component count, UPID and
+   descriptor lengths, 10-bit section_length).  The width part is an invariant of every typed history, from CreateSCTE35 or from
+   any state that has it; hence every typed history whose result fits is normal and its next encoding is canonical. *)
+Theorem C09_wid_closure : forall fs s0 ops, wid_sig fs s0 -> Forall typed_sig_op ops -> wid_sig fs (run_script s0 ops).
+Proof. exact wid_closure. Qed.
+Print Assumptions C09_wid_closure.
+Theorem C09_normal_of_wid : forall fs s, wid_sig fs s -> fits s -> normal fs s.
+Proof. exact normal_of_wid. Qed.
+Print Assumptions C09_normal_of_wid.
+Theorem C09_history_normal : forall ops, Forall typed_sig_op ops -> fits (run_script create_scte35 ops) ->
+  normal [] (run_script create_scte35 ops).
+Proof. exact history_normal. Qed.
+Print Assumptions C09_history_normal.
+Theorem C09_history_canonical : forall ops, Forall typed_sig_op ops -> fits (run_script create_scte35 ops) ->
+  fst (update_data (run_script create_scte35 ops)) = ser_section (logical [] (run_script create_scte35 ops)).
+Proof. exact history_canonical. Qed.
+Print Assumptions C09_history_canonical.
 
 (* every history from CreateSCTE35 keeps: command type consistent, tier 12 bits, command / component pts 33 bits,
    UPID / MID exclusivity, MID element length = length of its bytes (also after MID()[j].SetUPID), 40-bit durations,
@@ -241,10 +323,11 @@ Theorem C09_set_tier_encoded : forall fs st v, normal fs st ->
   fst (update_data st') = ser_section (logical fs st') /\ si_tier (logical fs st') = v mod 4096.
 Proof. exact set_tier_encoded. Qed.
 Print Assumptions C09_set_tier_encoded.
-Theorem C09_set_adjust_pts_encoded : forall fs st v, normal fs st -> v < 8589934592 ->
+Theorem C09_set_adjust_pts_encoded : forall fs st v, normal fs st ->
   let st' := apply_sig_op st (SSetAdjustPTS v) in
+  s_pts st' = v mod 8589934592 /\
   fst (update_data st') = ser_section (logical fs st') /\
-  (cmd_pts (s_cmd st) + si_pts_adj (logical fs st')) mod 8589934592 = v.
+  (cmd_pts (s_cmd st) + si_pts_adj (logical fs st')) mod 8589934592 = v mod 8589934592.
 Proof. exact set_adjust_pts_encoded. Qed.
 Print Assumptions C09_set_adjust_pts_encoded.
 Theorem C09_normal_create : normal [] create_scte35.
@@ -332,3 +415,13 @@ Example C09_order_example :
   ser_section_nocrc interleaved <> ser_section_nocrc reordered /\
   firstn 30 (fst (update_data (expected interleaved))) = ser_section_nocrc reordered.
 Proof. exact w_order_example. Qed.
+
+(* residual: SCTE35.SetPTS keeps an over-wide argument in PTS() (the command's pts_time is truncated, the encoding carries
+   pts_adjustment 0): getter 2^33+5, decoded 5.  This is why typed_sig_op bounds the argument of SSetPTS.
+   notes/findings/C09.md proposes `s.pts = pts & gots.MaxPtsValue`. *)
+Theorem C09_set_pts_overwide_refuted :
+  let st := run_script create_scte35 setpts_script in
+  s_pts st = 8589934597 /\ cmd_pts (s_cmd st) = 5 /\
+  exists sc, new_scte35 (0 :: fst (update_data st)) = Ok sc /\ s_pts sc = 5.
+Proof. exact w_set_pts_overwide. Qed.
+Print Assumptions C09_set_pts_overwide_refuted.
